@@ -165,6 +165,15 @@ def cds_groups(max_ids):
     return out
 
 
+CDS_REPRESENTATIVES = [
+    ["cds", False, ["and", [["id", False, "a"], ["id", False, "b"]]]],
+    ["cds", True, ["and", [["id", False, "a"], ["id", False, "b"]]]],
+    ["cds", True, ["or", False, [["id", False, "a"], ["id", False, "b"]]]],
+    ["cds", False, ["and", [["id", False, "a"], ["id", True, "b"]]]],
+    ["cds", True, ["and", [["id", False, "b"], ["id", True, "c"]]]],
+]
+
+
 def _key(n):
     return repr(n)
 
@@ -179,6 +188,13 @@ def trees(max_leaves):
             two.append(["and", [x, y]])
             two.append(["or", False, [x, y]])
             two.append(["or", True, [x, y]])
+        # a representative set of cds groups (positive and negated) combined with every plain identifier, so that negated
+        # groups - which cannot stand alone - are evaluated already at this size
+        ids = [a for a in by_n[1] if a[0] == "id"]
+        for group in CDS_REPRESENTATIVES:
+            for y in ids:
+                two.append(["and", [group, y]])
+                two.append(["or", False, [group, y]])
         by_n[2] = two
     if max_leaves >= 3:
         three = [t for t in cds_groups(3) if leaves(t) == 3]
